@@ -83,7 +83,7 @@ Proof.
         destruct (k_na _ (ki_node _ Hi) _ _ Hn) as [Ea Est]. rewrite Est in H.
         injection H as <-. simpl in Hnone. rewrite Ea, lookup_insert in Hnone. discriminate.
       * exfalso. destruct (auth_node_update_status_isolated _ _ _ _ Hi Hstep a Hne) as [E _]. rewrite E, Hn in Hnone. discriminate.
-  - exfalso. unfold step in Hstep. injection Hstep as <-.
+  - exfalso. unfold step in Hstep. destruct (forallb pchange_valid _); [|discriminate]. injection Hstep as <-.
     assert (E : node_act (fold_left apply_pchange cs (clear_events s)) = node_act s).
     { apply (fold_left_inv (fun y => node_act y = node_act s)); [|reflexivity]. intros y c Hy. pose proof (apply_pchange_keeps y c). rewrite <- Hy. keeps_solve. }
     rewrite E, Hn in Hnone. discriminate.
